@@ -257,6 +257,22 @@ impl Engine for VmEngine {
                 }
                 ops
             },
+            // a library callback (entered through run_function, which does not pop a function value
+            // first) that returns with the value stack full: key functions of arity 0-2 whose Return
+            // card has a value or none, under every small stack size
+            {
+                let mut ops = vec![];
+                for (args, ret) in [("", "return(comment($6e6f))"), ("", "return(int(#1))"), ("$6b", "return(comment($6e6f))"), ("$6b,$76", "return(readvar($76))"), ("", "comment($6e6f)")] {
+                    for lib in ["$7374642e736f727465645f62795f6b6579", "$7374642e6d696e5f62795f6b6579"] {
+                        let m = format!("mod([],[fn($6d61696e,[],[setvar($74,array([int(#3),int(#1),int(#2)])),setglobal($67,call({lib},[closure([{args}],[{ret}]),readvar($74)]))])],[])");
+                        for s in 3..16 {
+                            ops.push(format!("vm new mem=409600 stack={s} calls=32"));
+                            ops.push(format!("vm run {m} budget=2000"));
+                        }
+                    }
+                }
+                ops
+            },
             // stale slots above the stack height must not be visible after clear: an earlier run
             // leaves 10,20,30 behind (Return with three arguments), the later program reads locals
             // whose only assignments sit in untaken branches
